@@ -12,6 +12,7 @@ CONSTANTS
   Res = {"p1", "p2"}
   TopRes = {"p1", "p2"}
   Roa <- MCRoa1
+  AspaDefs <- NoAspa
   ParentOf <- Chain
   Ops = {"res", "remove", "delete", "roa", "pubops"}
 CONSTANTS
